@@ -107,8 +107,24 @@ def quick_leaves():
 # ---------------------------------------------------------------------------------------------
 # shapes
 # ---------------------------------------------------------------------------------------------
+LOOSE_KINDS = ("Str", "Int", "Float", "Port", "IPv4", "Net", "Host", "Url", "LogLevel", "AppMode", "File")
+
+
 def shape(name, leaf):
     """-> schema spec with the catalogue leaf `leaf` at the positions the shape defines"""
+    spec = _shape(name, leaf)
+    L = catalogue()[leaf][0]
+    if L["k"] in LOOSE_KINDS and name in ("flat", "nested"):
+        # a second field of the same class with no constraints of its own: values it accepts first must still be
+        # judged by the constrained field on their own (nothing may be remembered per class or per text)
+        loose = {"k": L["k"], "o": {"create_helpers": False} if L["k"] == "AppMode" else {}}
+        if L["k"] == "Port":
+            loose["o"] = {"min": -10 ** 9, "max": 10 ** 9}
+        spec["fields"].insert(len(spec["fields"]) - 1, ["loose", loose])
+    return spec
+
+
+def _shape(name, leaf):
     L = catalogue()[leaf][0]
     w = ["w", WITNESS]
     if name == "flat":
@@ -641,6 +657,16 @@ def ops_for(spec, leafname, tier="quick"):
                           ["updatekw", D(("kw", "x"))], ["update", {"$": "foreign-dict", "items": D((" F ", "9"))}],
                           ["update", {"$": "foreign-dict", "items": D(("f", "x"))}]):
                     ops.append(["mut", path] + m)
+    loose = dict(spec["fields"]).get("loose")
+    if loose is not None:
+        fs = {"k": spec_l["k"], "o": {a: b for a, b in spec_l.get("o", {}).items() if a not in ("default", "default_callable")}}
+        for v in list(invalid) + list(valid):
+            try:
+                dv = V.dec(v)
+            except Exception:  # noqa
+                continue
+            if R.ref_validate(loose, dv)[0] == "ok":
+                ops.append(["set", "loose", v])
     # sub-configuration routes
     for key, f in spec["fields"]:
         if f["k"] in ("Schema", "CType"):
